@@ -299,6 +299,10 @@ def check(pid, tier, nruns, procs, seed):
     os.makedirs(edir, exist_ok=True)
     with open(os.path.join(edir, pid + '.json'), 'w') as f:
         json.dump(ev, f, indent=1, sort_keys=True)
+    if tier == 'thorough':
+        # kept next to the per-property file, which the next quick run overwrites
+        with open(os.path.join(edir, pid + '.thorough.json'), 'w') as f:
+            json.dump(ev, f, indent=1, sort_keys=True)
     slow = sorted(results, key=lambda r: -r.get('wall', 0))[:3]
     log('slowest runs: %s; cpu total %.1fs' % ([(r['i'], r.get('wall')) for r in slow], sum(r.get('wall', 0) for r in results)))
     log('%s %s: runs=%d distinct_nontrivial=%d excluded=%d faults=%s known=%d new=%d det=%d/%d wall=%.1fs exit=%d' %
